@@ -1594,6 +1594,39 @@ impl TreeProp {
                 });
             }
         }
+        // depth 10: a middle depth (1024 leaves) with positions around the 64-, 128-, 256- and 512-leaf boundaries,
+        // ranges that cross them, and a range wider than two 64-leaf blocks; sparse observation on the position alphabet
+        {
+            let pos: Vec<u64> = vec![0, 1, 2, 63, 64, 65, 127, 128, 255, 256, 511, 512, 1022, 1023];
+            let mut ops = vec![];
+            if with_plain {
+                for i in [0u64, 63, 64, 200, 256, 511, 1023] {
+                    ops.push(TreeOp::Set(i, 1));
+                }
+                for i in [0u64, 64, 200, 1023] {
+                    ops.push(TreeOp::Delete(i));
+                }
+                ops.push(TreeOp::Append(2));
+                for s in [0u64, 62, 127, 254, 510, 1021] {
+                    ops.push(TreeOp::Range(s, vec![1, 2, 1]));
+                }
+                ops.push(TreeOp::Range(0, (0..130).map(|k| if k % 2 == 0 { 1 } else { 2 }).collect()));
+                ops.push(TreeOp::Range(60, (0..70).map(|k| if k % 3 == 0 { 2 } else { 1 }).collect()));
+                ops.push(TreeOp::Set(1024, 1));
+            }
+            if with_batch {
+                ops.push(TreeOp::Batch(0, vec![1, 2], vec![]));
+                ops.push(TreeOp::Batch(64, vec![], vec![0, 63]));
+                ops.push(TreeOp::Batch(200, vec![2], vec![200]));
+                ops.push(TreeOp::Batch(0, (0..130).map(|k| if k % 2 == 0 { 1 } else { 2 }).collect(), vec![]));
+            }
+            ops.extend_from_slice(&extra);
+            plans.push(ExploreCfg {
+                focus: f, depth: 10, ops,
+                backends: vec![(Kind::Full, 3), (Kind::Optimal, 3), (Kind::Pm, 2), (Kind::Rln, if q { 1 } else { 2 })],
+                nodedup_len: 1, max_len: if q { 2 } else { 3 }, positions: pos, full_obs: false, label: "depth10.boundaries".into(),
+            });
+        }
         // depth 20: position alphabet, sparse observation
         {
             let pos: Vec<u64> = POS20.to_vec();
